@@ -156,7 +156,8 @@ def st_decl():
         emulate = draw(st.sampled_from([None, None, True]))
         return {'part': 'B', 'kind': kind, 'outer': [list(p) for p in outer], 'inner': [list(p) for p in inner], 'n': n, 'names': names,
                 'flags': {'use_varargs': ua, 'use_varkwargs': uk, 'hide_args': ha, 'hide_kwargs': hk, 'partial': partial},
-                'emulate': emulate, 'explicit_flags': draw(st.booleans()), 'falsy': draw(st.integers(0, 3)) == 0}
+                'emulate': emulate, 'explicit_flags': draw(st.booleans()), 'falsy': draw(st.integers(0, 3)) == 0,
+                'reuse': draw(st.integers(0, 3)) == 0}
     return build()
 
 
@@ -206,16 +207,17 @@ def render(d):
     inner_m = 'def %%s(%s):\n    LOG.append(%s)\n    return "inner"\n' % (meth(si, has_po_i), rec)
     ind = lambda t: ''.join('    ' + l for l in t.splitlines(True))
     if kind == 'function':
-        src = pre + inner_fn + '@specifiers.forwards_to_function(%s)\ndef w(%s):\n    %s\n' % (
-            ', '.join(['inner'] + dargs + dkw), universe.spec_text(so), call('inner'))
+        deco_expr = 'specifiers.forwards_to_function(%s)' % ', '.join(['inner'] + dargs + dkw)
+        src = pre + inner_fn + '@%s\ndef w(%s):\n    %s\n' % (deco_expr, universe.spec_text(so), call('inner'))
         src += 'TARGETS = [("function", w, False)]\n'
     elif kind == 'function_in_class':
-        src = pre + inner_fn + 'class K(object):\n' + ind('@specifiers.forwards_to_function(%s)\ndef w(%s):\n    %s\n' % (
-            ', '.join(['inner'] + dargs + dkw), meth(so, has_po_o), call('inner')))
+        deco_expr = 'specifiers.forwards_to_function(%s)' % ', '.join(['inner'] + dargs + dkw)
+        src = pre + inner_fn + 'class K(object):\n' + ind('@%s\ndef w(%s):\n    %s\n' % (deco_expr, meth(so, has_po_o), call('inner')))
         src += 'class Sub(K):\n    pass\nINST = K()\nTARGETS = [("bound", INST.w, False), ("subclass", Sub().w, False), ("unbound-free", K.w, True)]\n'
     elif kind in ('method', 'method_dotted', 'method_ivar', 'method_static'):
         attr = {'method': 'inner', 'method_dotted': 'helper.inner', 'method_ivar': 'fn', 'method_static': 'sinner'}[kind]
-        deco = '@specifiers.forwards_to_%s(%s)\n' % ('ivar' if kind == 'method_ivar' else 'method', ', '.join([repr(attr)] + dargs + dkw))
+        deco_expr = 'specifiers.forwards_to_%s(%s)' % ('ivar' if kind == 'method_ivar' else 'method', ', '.join([repr(attr)] + dargs + dkw))
+        deco = '@' + deco_expr + '\n'
         body = ''
         if kind == 'method':
             src = pre + 'class K(object):\n' + ind(inner_m % 'inner')
@@ -229,30 +231,57 @@ def render(d):
         src += 'class Sub(K):\n    pass\nINST = K()\nTARGETS = [("bound", INST.w, False), ("subclass", Sub().w, False), ("unbound", K.w, True)]\n'
     elif kind == 'super':
         src = pre + 'class Base(object):\n' + ind(inner_m % 'w')
-        src += 'class K(Base):\n' + ind('@specifiers.forwards_to_super(%s)\ndef w(%s):\n    %s\n' % (
-            ', '.join(dargs + dkw), meth(so, has_po_o), call('super().w')))
+        deco_expr = 'specifiers.forwards_to_super(%s)' % ', '.join(dargs + dkw)
+        src += 'class K(Base):\n' + ind('@%s\ndef w(%s):\n    %s\n' % (deco_expr, meth(so, has_po_o), call('super().w')))
         src += 'class Sub(K):\n    pass\nINST = K()\nTARGETS = [("bound", INST.w, False), ("subclass", Sub().w, False), ("unbound", K.w, True)]\n'
     elif kind == 'super_mixin':
         src = pre + 'class Base(object):\n' + ind(inner_m % 'w')
-        src += 'class Mixin(object):\n' + ind('@specifiers.forwards_to_super(%s)\ndef w(%s):\n    %s\n' % (
-            ', '.join(dargs + dkw), meth(so, has_po_o), call('super().w')))
+        deco_expr = 'specifiers.forwards_to_super(%s)' % ', '.join(dargs + dkw)
+        src += 'class Mixin(object):\n' + ind('@%s\ndef w(%s):\n    %s\n' % (deco_expr, meth(so, has_po_o), call('super().w')))
         src += 'class K(Mixin, Base):\n    pass\nINST = K()\nTARGETS = [("bound", INST.w, False), ("unbound", K.w, True)]\n'
     elif kind == 'apply_super':
         akw = ['num_args=%d' % d['n']] if (d['n'] or d['explicit_flags']) else []
         if d['names'] or d['explicit_flags']:
             akw.append('named_args=%r' % (tuple(d['names']),))
         src = pre + 'class Base(object):\n' + ind(inner_m % 'w')
-        src += '@specifiers.apply_forwards_to_super(%s)\nclass K(Base):\n' % ', '.join(["'w'"] + akw + dkw)
+        deco_expr = 'specifiers.apply_forwards_to_super(%s)' % ', '.join(["'w'"] + akw + dkw)
+        src += '@%s\nclass K(Base):\n' % deco_expr
         src += ind('def w(%s):\n    %s\n' % (meth(so, has_po_o), call('super(K, self).w')))
         src += 'class Sub(K):\n    pass\nINST = K()\nTARGETS = [("bound", INST.w, False), ("subclass", Sub().w, False), ("unbound", K.w, True)]\n'
     else:
         raise ValueError(kind)
+    if d.get('reuse'):
+        src = reuse_decorator(src, deco_expr, kind)
     if d.get('falsy') and 'class K(' in src:
         # instances that are false in a boolean context (empty containers) are still instances
         head, sep, tail = src.partition('class K(')
         line, nl, rest = tail.partition('\n')
         src = head + sep + line + nl + '    def __len__(self):\n        return 0\n' + rest
     return src
+
+
+DECOY_HEAD = ('class DecoyBase(object):\n    def w(self, dz=None):\n        return "decoy"\n'
+              '    inner = sinner = fn = staticmethod(lambda dz=None: "decoy")\n    helper = property(lambda self: self)\n')
+
+
+def reuse_decorator(src, deco_expr, kind):
+    # one decorator object, first applied to (and retrieved through) an unrelated declaration, then to the real one: nothing of
+    # the first use may carry over
+    lines = src.splitlines(True)
+    at = next(i for i, l in enumerate(lines) if l.strip() == '@' + deco_expr)
+    lines[at] = lines[at].replace('@' + deco_expr, '@DECO')
+    top = at
+    while lines[top][:1] in (' ', '\t'):
+        top -= 1
+    if kind == 'apply_super':
+        decoy = ('@DECO\nclass Decoy(DecoyBase):\n    def w(self, dq, *args, **kwargs):\n        return super(Decoy, self).w(*args, **kwargs)\n')
+    elif kind in ('function', 'function_in_class'):
+        decoy = ('class Decoy(DecoyBase):\n    @DECO\n    def w(self, dq, *args, **kwargs):\n        return inner(*args, **kwargs)\n')
+    else:
+        decoy = ('class Decoy(DecoyBase):\n    @DECO\n    def w(self, dq, *args, **kwargs):\n        return super().w(*args, **kwargs)\n')
+    decoy += ('try:\n    import sigtools as _st\n    DECOY_SIG = str(_st.signature(Decoy().w))\nexcept Exception as e:\n    DECOY_SIG = repr(e)\n')
+    lines[top:top] = [DECOY_HEAD, 'DECO = %s\n' % deco_expr, decoy]
+    return ''.join(lines)
 
 
 def execute(g, target, needs_self, npos, kws, ha, hk):
@@ -315,6 +344,10 @@ def check_decl(d, stats):
                 # emulate=True objects compute the declared signature on any retrieval
                 stats.cls('B/declaration-raises/%s' % d['kind'])
                 continue
+            except Exception as e:
+                stats.fail('C04/B/retrieval-raised-%s' % type(e).__name__, dict(case, form=form, via='signatures.signature'),
+                           'signatures.signature(%s target) raised %s: %s for\n%s' % (form, type(e).__name__, e, src))
+                continue
             sigs = {}
             for gname, getter in getters:
                 stats.case()
@@ -334,6 +367,8 @@ def check_decl(d, stats):
                     stats.cls('B/unbound-plain (the forger needs the instance; not executed)')
                     continue
                 stats.cls('B/%s/%s/%s' % (d['kind'], form, 'emulate' if d['emulate'] else 'attribute'))
+                if d.get('reuse'):
+                    stats.cls('B/decorator-object-used-twice/%s' % d['kind'])
                 rb = cpbind.binder(rview)
                 kp = cpbind.kwpassable(rview)
                 pool = list(dict.fromkeys(list(kp) + sorted(alln - {'self'}) + ['q', 'zz']))[:9]
